@@ -64,6 +64,9 @@ type Op struct {
 type Behaviour struct {
 	Kind string `json:"kind"`
 	Ops  []Op   `json:"ops"`
+	// Noise: this many other syncers of the same process (bridge stores of their own, on their own files) keep appending
+	// deposits to their exit trees while the behaviour runs - whatever the trees of one process share is under contention
+	Noise int `json:"noise"`
 }
 
 // ---------------------------------------------------------------------------------------------- result classes
@@ -449,6 +452,10 @@ func (r *runner) runOne(idx int, b Behaviour, mk func(dir string, rng *rand.Rand
 		return fmt.Errorf("injector: %w", err)
 	}
 	defer inj.close()
+	if b.Noise > 0 {
+		stop := startNoise(dir, b.Noise)
+		defer stop()
+	}
 	r.w.Emit(tr.M{"ev": "reset", "kind": b.Kind, "t": idx})
 	r.w.Emit(tr.M{"ev": "snap", "s": kd.snapshot()})
 	for _, op := range b.Ops {
